@@ -184,6 +184,19 @@ theorem accepted_tree_isEmpty (ext : Ext) (cfg : Config) (icfg : ICfg) (acc : ne
         intro hnil; rw [hnil] at hne; cases hne
       exact origins_fold_tree ext _ _ _ _ cfg.origins {} herr hany (Or.inl hps)
 
+/-- In allow-all mode the stored tree is the empty tree. -/
+theorem accepted_tree_star (ext : Ext) (cfg : Config) (icfg : ICfg) (acc : newInternalConfig ext cfg = .ok icfg)
+    (hs : cfg.origins.contains Validate.star = true) : icfg.tree = Node.empty := by
+  obtain ⟨_, rfl⟩ := (accepted_iff ext cfg icfg).mp acc
+  have hne : cfg.origins.isEmpty = false := by
+    cases h : cfg.origins with
+    | nil => rw [h] at hs; cases hs
+    | cons _ _ => rfl
+  simp only [Validate.build, Validate.originsResult, Validate.origins, hne, Bool.false_eq_true, if_false]
+  obtain ⟨_, ha⟩ := origins_fold_parsed ext cfg.credentialed (Validate.pnaAny cfg) cfg.tolInsecure cfg.tolPSL cfg.origins {}
+  rw [ha, hs]
+  rfl
+
 theorem parsedPatterns_congr (ext : Ext) {l1 l2 : List Bytes} (h : ∀ x, x ∈ l1 ↔ x ∈ l2) (p : Pattern) :
     p ∈ parsedPatterns ext l1 ↔ p ∈ parsedPatterns ext l2 := by
   unfold parsedPatterns
